@@ -651,6 +651,8 @@ def _check_corner_case_1(rep, rule, b, ps):
             return float(x[1][1])
         if x[0] == 'param' and x[2] == 'inter':
             return dict(env['inter'])
+        if x[0] == 'agg' and x[5].endswith('Coord') and tuple(x[3]) == ('x', 'y'):
+            return {'x': val(x[4][0], env), 'y': val(x[4][1], env)}
         if x[0] == 'upd':
             base = val(x[1], env)
             for (path, nv) in x[2]:
